@@ -11,9 +11,11 @@ THEOREMS = ['RunCmd.done_iff_all_zero', 'RunCmd.codes_are_prefix', 'RunCmd.not_r
             'RunCmd.bad_name_fails_task', 'RunCmd.status_total']
 BUDGET = {'quick': 600, 'thorough': 8000}
 TIME_LIMIT = {'quick': 50, 'thorough': 600}
-RULE = ('RunTask with 1-5 real command lines (/bin/sh -c printf to both streams, exit k in 0..255), missing and '
+RULE = ('RunTask with 1-5 real command lines (/bin/sh -c printf to both streams, exit k in 0..255 or death by a signal; '
+        'sometimes programs found only through the PATH given to the task as subprocess argument), missing and '
         'non-executable programs at any position, task names with spaces, unicode, "/", NUL, ".", ".."; run through '
-        'RunTask.do and (1 in 3) through the real Scheduler; two tasks per case to check directory ownership; '
+        'RunTask.do and (1 in 3) through the real Scheduler; 30% of the do() cases executed twice in the same output root '
+        '(the second run is the one read); two tasks per case to check directory ownership; '
         'non-trivial = a failure (non-zero exit, spawn error or bad name) occurs, or >= 2 commands succeed; '
         'distinct = case hash')
 CORRESPONDS = 'Model/RunCmd.lean (runLoop, run, sanitize, runTask, finalStatus) vs valjean.cosette.run.run/RunTask + Scheduler worker'
@@ -45,6 +47,11 @@ def gen_task(rng):
         for c in clis:
             c['code'] = 0
     name = rng.choice(NAMES) if rng.random() < 0.5 else f'task{rng.randrange(4)}'
+    # some commands are programs found only through the PATH handed to the task (subprocess argument `env`)
+    if rng.random() < 0.25:
+        for i, c in enumerate(clis):
+            if c['kind'] == 'sh' and rng.random() < 0.6:
+                c['tool'] = f'tool{rng.randrange(1000)}_{i}'
     return {'name': name, 'clis': clis}
 
 
@@ -52,7 +59,10 @@ def gen(rng, tier, run):
     tasks = [gen_task(rng), gen_task(rng)]
     if tasks[0]['name'] == tasks[1]['name']:
         tasks[1]['name'] += '_2'
-    return {'tasks': tasks, 'scheduler': rng.random() < 0.34}
+    case = {'tasks': tasks, 'scheduler': rng.random() < 0.34}
+    if not case['scheduler'] and rng.random() < 0.3:
+        case['rerun'] = True      # the tasks are executed a second time in the same output root: what is read is the second run
+    return case
 
 
 def shrink(case):
@@ -61,9 +71,9 @@ def shrink(case):
             if len(task['clis']) > 1:
                 new = [dict(t) for t in case['tasks']]
                 new[ti]['clis'] = task['clis'][:i] + task['clis'][i + 1:]
-                yield {'tasks': new, 'scheduler': case['scheduler']}
+                yield dict(case, tasks=new)
     if case['scheduler']:
-        yield {'tasks': case['tasks'], 'scheduler': False}
+        yield dict(case, scheduler=False)
 
 
 def real_cli(cli, scratch):
@@ -71,12 +81,18 @@ def real_cli(cli, scratch):
         return [os.path.join(scratch, 'no-such-program'), 'arg']
     if cli['kind'] == 'noexec':
         return [os.path.join(scratch, 'not-executable'), 'arg']
+    if cli.get('tool'):
+        return [cli['tool']]
+    return ['/bin/sh', '-c', sh_body(cli)]
+
+
+def sh_body(cli):
     out = f"printf '%s' {shlex.quote(cli['out'])}"
     err = f"printf '%s' {shlex.quote(cli['err'])} >&2"
     body = f'{out}; {err}' if cli['order'] else f'{err}; {out}'
     if cli['code'] < 0:
-        return ['/bin/sh', '-c', f"{body}; kill -{-cli['code']} $$"]
-    return ['/bin/sh', '-c', f"{body}; exit {cli['code']}"]
+        return f"{body}; kill -{-cli['code']} $$"
+    return f"{body}; exit {cli['code']}"
 
 
 def run_impl(case, run):
@@ -91,9 +107,25 @@ def run_impl(case, run):
         root = os.path.join(scratch, 'out')
         config = Config({'path': {'output-root': root}})
         tasks = []
+        bindir = os.path.join(scratch, 'bin')
+        os.makedirs(bindir)
         for spec in case['tasks']:
             clis = [real_cli(c, scratch) for c in spec['clis']]
-            tasks.append(RunTask.from_clis(spec['name'], clis))
+            kwargs = {}
+            for c in spec['clis']:
+                if c.get('tool'):
+                    path = os.path.join(bindir, c['tool'])
+                    with open(path, 'w', encoding='utf-8') as fobj:
+                        fobj.write('#!/bin/sh\n' + sh_body(c) + '\n')
+                    os.chmod(path, 0o755)
+                    kwargs['env'] = dict(os.environ, PATH=bindir + os.pathsep + os.environ.get('PATH', '/bin:/usr/bin'))
+            tasks.append(RunTask.from_clis(spec['name'], clis, **kwargs))
+        if case.get('rerun'):
+            for task in tasks:
+                try:
+                    task.do(env={}, config=config)
+                except Exception:  # pylint: disable=broad-except
+                    pass
         if case['scheduler']:
             from valjean.cosette.depgraph import DepGraph
             from valjean.cosette.scheduler import Scheduler
